@@ -305,3 +305,21 @@ def validate_recorded(ctx, kinds=None, cap=None):
         shown += 1
         if shown <= 20:
             ctx.report(f'replay-trace:{ev[0]}', f'{test}: event #{k} {ev} is not a behaviour of StoreTrace; preceding {before}')
+
+
+def scaled(plans, k=3):
+    """the thorough tier of the Store checks: the quick plans with k times as many covering paths, random walks and
+    simulated behaviours (the exhaustive TLC instances stay the ones known to finish well inside the time-outs - the
+    larger instances tried earlier needed hours once Reset / MultiForceObj / the newer families had been added)"""
+    out = []
+    for p in plans:
+        q = dict(p)
+        if q.get('cover_limit'):
+            q['cover_limit'] = q['cover_limit'] * k
+        q['walks'] = (q.get('walks') or 0) * k
+        if q.get('walk_len'):
+            q['walk_len'] = q['walk_len'] + 4
+        if q.get('sim'):
+            q['sim'] = dict(q['sim'], num=q['sim']['num'] * k, depth=q['sim']['depth'] + 4)
+        out.append(q)
+    return out
